@@ -180,6 +180,8 @@ func c06Defs() []c06Scenario {
 		{Name: "tiny-put-vs-get", Cfg: "tiny", Pre: []string{"put:a:0"}, Clients: []c06Client{{"put:a:1"}, {"get:a"}}},
 		{Name: "tiny-put-vs-put", Cfg: "tiny", Pre: []string{"put:a:0", "bg"}, Clients: []c06Client{{"put:a:1"}, {"put:b:2", "get:a"}}},
 		{Name: "tiny-del-vs-get", Cfg: "tiny", Pre: []string{"put:a:0", "bg"}, Clients: []c06Client{{"del:a"}, {"get:a"}}},
+		// a burst: the table fills again and again while one background flush is still under way
+		{Name: "tiny-burst", Cfg: "tiny", Clients: []c06Client{{"put:a:1", "put:b:2", "put:a:3", "put:b:4", "get:a"}}},
 		{Name: "flush-vs-put-get", Cfg: "big", Pre: []string{"put:a:0", "switch"}, Clients: []c06Client{{"flush"}, {"put:a:1"}, {"get:a"}}},
 		{Name: "flush-active-vs-put", Cfg: "big", Pre: []string{"put:a:0"}, Clients: []c06Client{{"flush"}, {"put:a:1", "get:a"}}},
 		// two writes can fall into any window of a rotation, a third comes after it
@@ -258,7 +260,7 @@ func init() {
 	fw.Register(&fw.Check{
 		ID:    "C06",
 		Level: "model_checking",
-		Rule: "stateless exploration of the real engine under the controlled scheduler: 11 scenarios of 2-3 client threads x 1-2 operations {put,get,delete} on colliding keys {a,b}, with the real background flush thread, explicit flush and compaction callers, memtable size 1 B (every write switches the table and rotates the log) or 32 MiB; all interleavings up to the deviation bound (2 quick / 3 thorough) with happens-before caching. Oracle: porcupine linearizability of the recorded call/return history (whole-store model, failed writes as no-ops, final reads included), every acknowledged put in the log exactly once and no failed put in the log. Non-trivial = executions with a cross-thread conflict on a shared object",
+		Rule: "stateless exploration of the real engine under the controlled scheduler: 12 scenarios of 1-3 client threads x 1-2 operations {put,get,delete} on colliding keys {a,b}, with the real background flush thread, explicit flush and compaction callers, memtable size 1 B (every write switches the table and rotates the log) or 32 MiB; all interleavings up to the deviation bound (2 quick / 3 thorough) with happens-before caching. Oracle: porcupine linearizability of the recorded call/return history (whole-store model, failed writes as no-ops, final reads included), every acknowledged put in the log exactly once and no failed put in the log. Non-trivial = executions with a cross-thread conflict on a shared object",
 		Assumptions: []string{"SC interleavings of visible operations (locks, atomics, channels, file-system namespace calls)", "data calls on open files are not scheduling points (files are thread-private or mutex-guarded)"},
 		Units: func(tier string) []string {
 			var us []string
